@@ -28,6 +28,7 @@ type workerMsg struct {
 	SigFile string           `json:"sigfile,omitempty"`
 	Samples []json.RawMessage `json:"samples,omitempty"`
 	TimedOut bool            `json:"timed_out,omitempty"`
+	Detail   string          `json:"detail,omitempty"`
 }
 
 func envSeed() uint64 {
@@ -60,6 +61,8 @@ func Main(engines []Engine) {
 		os.Exit(cmdReplay(byID, os.Args[2:]))
 	case "plan":
 		os.Exit(cmdPlan(byID, os.Args[2:]))
+	case "execplan":
+		os.Exit(cmdExecPlan(byID, os.Args[2:]))
 	case "hashes":
 		os.Exit(cmdHashes(byID, os.Args[2:]))
 	case "list":
@@ -145,6 +148,13 @@ func cmdWorker(byID map[string]Engine, args []string) int {
 		done++
 		if len(samples) < 2 && (i/(*W))%97 == 0 {
 			samples = append(samples, PlanJSON(plan))
+		}
+		if v != nil && v.Clause == "harness" {
+			wmu.Lock()
+			enc.Encode(workerMsg{Type: "harness", Runs: runIdx, Samples: []json.RawMessage{planJSON}, Detail: v.Detail})
+			out.Flush()
+			wmu.Unlock()
+			continue
 		}
 		if v != nil {
 			wd2 := time.AfterFunc(4*runLimit(), func() {
@@ -365,6 +375,7 @@ func cmdRun(byID map[string]Engine, args []string) int {
 	var samples []json.RawMessage
 	var viols []*Replay
 	var hangs []string
+	nHarnessMsgs := 0
 	var runsDone uint64
 	harness := false
 	timedOut := false
@@ -401,6 +412,12 @@ func cmdRun(byID map[string]Engine, args []string) int {
 				}
 				mu.Lock()
 				switch m.Type {
+				case "harness":
+					harness = true
+					if nHarnessMsgs < 5 {
+						nHarnessMsgs++
+						fmt.Printf("HARNESS property=%s run %d: %s (not a violation)\n", e.ID(), m.Runs, m.Detail)
+					}
 				case "hang":
 					hangs = append(hangs, fmt.Sprintf("run %d plan %s", m.Runs, string(m.Samples[0])))
 				case "violation":
@@ -555,8 +572,8 @@ func cmdRun(byID map[string]Engine, args []string) int {
 	if len(fresh) > 0 {
 		return 1
 	}
-	if harness {
-		fmt.Println("agesim: harness trouble (worker failure); not a violation")
+	if harness || len(hangs) > 0 {
+		fmt.Println("agesim: harness trouble (worker failure, watchdog or harness error); not a violation")
 		return 2
 	}
 	return 0
@@ -589,4 +606,83 @@ func cmdHashes(byID map[string]Engine, args []string) int {
 		fmt.Printf("%d plan=%s events=%d log=%s verdict=%s\n", i, ph, c.Log.Len(), c.Log.Sum(), clause)
 	}
 	return 0
+}
+
+// ExecResult is what `execplan` prints: one plan executed in this binary on behalf of another one
+// (used when a stage of an engine needs a differently built binary).
+type ExecResult struct {
+	Clause  string           `json:"clause,omitempty"`
+	Detail  string           `json:"detail,omitempty"`
+	LogHash string           `json:"log_hash"`
+	Trace   []string         `json:"trace,omitempty"`
+	C       map[string]int64 `json:"c"`
+	Sigs    []uint64         `json:"sigs"`
+}
+
+func cmdExecPlan(byID map[string]Engine, args []string) int {
+	fs := flag.NewFlagSet("execplan", flag.ExitOnError)
+	prop := fs.String("prop", "", "")
+	fs.Parse(args)
+	e := byID[*prop]
+	if e == nil {
+		return 2
+	}
+	p := e.NewPlan()
+	if err := json.NewDecoder(os.Stdin).Decode(p); err != nil {
+		fmt.Fprintln(os.Stderr, err)
+		return 2
+	}
+	c := &Ctx{Stats: NewStats(), Log: NewLog(true), Tier: "exec"}
+	v := SafeExecute(e, p, c)
+	r := ExecResult{LogHash: c.Log.Sum(), Trace: c.Log.Text, C: c.Stats.C}
+	for k := range c.Stats.Sigs {
+		r.Sigs = append(r.Sigs, k)
+	}
+	if v != nil {
+		r.Clause, r.Detail = v.Clause, v.Detail
+	}
+	json.NewEncoder(os.Stdout).Encode(r)
+	return 0
+}
+
+// RemoteExecute runs a plan in another binary (execplan) and merges its statistics.
+func RemoteExecute(bin, prop string, plan interface{}, c *Ctx) (*Verdict, error) {
+	cmd := exec.Command(bin, "execplan", "-prop", prop)
+	cmd.Stdin = strings.NewReader(string(PlanJSON(plan)))
+	cmd.Stderr = os.Stderr
+	var outBuf strings.Builder
+	cmd.Stdout = &outBuf
+	if err := cmd.Start(); err != nil {
+		return nil, err
+	}
+	done := make(chan error, 1)
+	go func() { done <- cmd.Wait() }()
+	select {
+	case err := <-done:
+		if err != nil {
+			return nil, fmt.Errorf("execplan in %s: %v", bin, err)
+		}
+	case <-time.After(runLimit() / 2):
+		cmd.Process.Kill()
+		<-done
+		return nil, fmt.Errorf("execplan in %s did not finish within %v (hang)", bin, runLimit()/2)
+	}
+	out := []byte(outBuf.String())
+	var r ExecResult
+	if err := json.Unmarshal(out, &r); err != nil {
+		return nil, fmt.Errorf("execplan output: %v", err)
+	}
+	for k, v := range r.C {
+		c.Stats.C[k] += v
+	}
+	for _, k := range r.Sigs {
+		c.Stats.Sigs[k] = struct{}{}
+	}
+	for _, l := range r.Trace {
+		c.Log.Add("%s", l)
+	}
+	if r.Clause != "" {
+		return &Verdict{Clause: r.Clause, Detail: r.Detail}, nil
+	}
+	return nil, nil
 }
